@@ -224,25 +224,48 @@ def check_normalisation(run: Run) -> None:
     tgt = loops[0].target
     line_var = tgt.elts[-1].id if isinstance(tgt, ast.Tuple) else tgt.id  # type: ignore[union-attr]
     n_app = 0
+
+    def facts_at(nid: int) -> set[str]:
+        f: set[str] = set()
+        for cond, pol in branch_conditions(cfg, nid):
+            f |= set(conjuncts(cond, pol))
+        return f
+
+    def classify(expr: ast.AST, facts: set[str], where: ast.AST) -> None:
+        """expr is what gets appended for a line on a path with `facts`"""
+        nonlocal n_app
+        if isinstance(expr, ast.IfExp):
+            classify(expr.body, facts | set(conjuncts(expr.test, True)), where)
+            classify(expr.orelse, facts | set(conjuncts(expr.test, False)), where)
+            return
+        n_app += 1
+        in_fence = "in_fence" in facts
+        closing = any(f.startswith(("result == ", "verdict == ")) and "close" in f for f in facts) or any(" == 'close'" in f for f in facts)
+        opening = "!in_fence" in facts
+        arg = _text(expr)
+        content_path = in_fence and not closing and not opening
+        ok = (arg == line_var) if content_path else True
+        run.instance("R05.4", lx.loc(where), f"a line is emitted as `{arg}` on a path with in_fence={in_fence}, closing={closing}", ok=ok)
+        if not ok:
+            run.violation("R05.4", lx, fi.qualname, f"output_parts.append({arg}) inside an open fence", f"inside an open fence the content line is appended as `{arg}`, not as the raw line `{line_var}`: literal zone content is normalised")
+
     for n in cfg.nodes:
         if n.kind != "stmt" or n.ast is None:
             continue
         for c in walk_no_nested(n.ast):
             if isinstance(c, ast.Call) and _text(c.func) == "output_parts.append" and c.args:
-                n_app += 1
-                facts: set[str] = set()
-                for cond, pol in branch_conditions(cfg, n.id):
-                    facts |= set(conjuncts(cond, pol))
-                in_fence = "in_fence" in facts
-                closing = any(f.startswith("result == ") and "close" in f for f in facts)
-                arg = _text(c.args[0])
-                content_path = in_fence and not closing
-                ok = (arg == line_var) if content_path else True
-                run.instance("R05.4", lx.loc(c), f"output_parts.append({arg}) on a path with in_fence={in_fence}, closing={closing}", ok=ok)
-                if not ok:
-                    run.violation("R05.4", lx, fi.qualname, f"output_parts.append({arg}) inside an open fence", f"inside an open fence the content line is appended as `{arg}`, not as the raw line `{line_var}`: literal zone content is normalised")
-    if n_app < 4:
-        raise AnalysisError(f"_normalize_with_fence_detection: only {n_app} appends found")
+                a0 = c.args[0]
+                if isinstance(a0, ast.Name) and a0.id != line_var and a0.id != "normalized_line" or (isinstance(a0, ast.Name) and a0.id == "normalized_line" and False):
+                    # a shared append of a per-branch variable: classify every assignment of that variable with its own facts
+                    defs = [d for d in cfg.nodes if d.kind == "stmt" and isinstance(d.ast, ast.Assign) and any(isinstance(t, ast.Name) and t.id == a0.id for t in d.ast.targets)]
+                    direct_norm = [d for d in defs if "normalize" in _text(d.ast.value)]
+                    if defs and not (len(defs) == len(direct_norm) and a0.id == "normalized_line"):
+                        for d in defs:
+                            classify(d.ast.value, facts_at(d.id), d.ast)
+                        continue
+                classify(a0, facts_at(n.id), c)
+    if n_app < 3:
+        raise AnalysisError(f"_normalize_with_fence_detection: only {n_app} emitted-line site(s) found")
     # who may call unicodedata.normalize
     for m in p.modules.values():
         for f2 in m.functions.values():
@@ -261,6 +284,16 @@ def check_normalisation(run: Run) -> None:
     cfg2 = CFG(tk.node)
     raises = [n for n in cfg2.nodes if n.kind == "stmt" and isinstance(n.ast, ast.Raise) and "Tabs are not allowed" in _text(n.ast)]
     if not raises:
+        # the pre-scan may have been extracted into a helper of the lexer module that tokenize calls
+        for c in walk_no_nested(tk.node):
+            if isinstance(c, ast.Call) and isinstance(c.func, ast.Name) and lx.has_func(c.func.id):
+                h = lx.func(c.func.id)
+                if any(isinstance(x, ast.Raise) and "Tabs are not allowed" in _text(x) for x in walk_no_nested(h.node)):
+                    tk = h
+                    cfg2 = CFG(tk.node)
+                    raises = [n for n in cfg2.nodes if n.kind == "stmt" and isinstance(n.ast, ast.Raise) and "Tabs are not allowed" in _text(n.ast)]
+                    break
+    if not raises:
         raise AnalysisError("tokenize: tab rejection not found")
     for r in raises:
         conds = branch_conditions(cfg2, r.id)
@@ -270,6 +303,14 @@ def check_normalisation(run: Run) -> None:
         flags = [f[1:] for f in facts if f.startswith("!") and f[1:].isidentifier()]
         ok = False
         why = "no test on a fence-span flag controls the raise"
+        # the scan itself may be the condition: `if any(start <= i < end for ... in fence_spans): continue`
+        for cond, pol in conds:
+            t = cond.operand if isinstance(cond, ast.UnaryOp) and isinstance(cond.op, ast.Not) else cond
+            neg = (pol is False) != (t is not cond)
+            if neg and isinstance(t, ast.Call) and _text(t.func) == "any" and t.args and isinstance(t.args[0], ast.GeneratorExp):
+                ge = t.args[0]
+                if len(ge.generators) == 1 and _text(ge.generators[0].iter) == "fence_spans" and not ge.generators[0].ifs and isinstance(ge.elt, ast.Compare) and len(ge.elt.ops) == 2:
+                    ok, why = True, "the raise is taken only when any(start <= i < end over every fence span) is false"
         for fl in flags:
             defs = [a for a in walk_no_nested(tk.node) if isinstance(a, ast.Assign) and any(isinstance(t, ast.Name) and t.id == fl for t in a.targets)]
             if len(defs) == 1 and isinstance(defs[0].value, ast.Call) and _text(defs[0].value.func) == "any" and isinstance(defs[0].value.args[0], ast.GeneratorExp):
@@ -366,27 +407,43 @@ def _zone_layout(fn_body: list[ast.stmt], zone: str) -> dict[str, object]:
     facts["content_appended_raw"] = any(_text(a.args[0]) == f"{zone}.content" for a in appends)
     guards = [n for n in ast.walk(mod) if isinstance(n, ast.If) and _text(n.test) == f"{zone}.content"]
     facts["content_guard_is_nonempty_only"] = bool(guards) and all(len(g.body) == 1 for g in guards)
-    facts["closing_fence"] = sum(1 for a in appends if isinstance(a.args[0], ast.JoinedStr) and _text(a.args[0]).endswith(f"{{{zone}.fence_marker}}'")) >= 1
+    fence_lines = [n for n in ast.walk(mod) if isinstance(n, ast.JoinedStr) and n.values and isinstance(n.values[-1], ast.FormattedValue) and _text(n.values[-1].value) == f"{zone}.fence_marker"]
+    facts["closing_fence"] = len(fence_lines) >= 2 or sum(1 for a in appends if isinstance(a.args[0], ast.JoinedStr) and _text(a.args[0]).endswith(f"{{{zone}.fence_marker}}'")) >= 1
     facts["mentions_endswith"] = any(isinstance(n, ast.Attribute) and n.attr == "endswith" for n in ast.walk(mod))
     return facts
 
 
 def check_layout_siblings(run: Run) -> None:
-    run.rule("R05.7", "the sites that lay out a literal zone as a field (emit_assignment, the bare-key child in emit_block, the META helper) agree: content is appended as its own list element exactly when non-empty, between an opening and a closing fence line, with no end-of-content newline arithmetic", 3)
+    run.rule("R05.7", "the sites that lay out a literal zone as lines (every region of the emitter that builds a line ending in `{zone.fence_marker}`: emit_assignment, the bare-key child in emit_block, the META helper - or the one helper they share) agree: content is appended as its own list element exactly when non-empty, between an opening and a closing fence line, with no end-of-content newline arithmetic", 1)
     em = run.project.mod("core.emitter")
     sites: list[tuple[str, list[ast.stmt], str]] = []
-    for fname in ("emit_assignment", "emit_block", "_literal_zone_field_lines"):
-        if not em.has_func(fname):
+
+    def fence_fstrings(stmts: list[ast.stmt]) -> list[str]:
+        zs = []
+        for st in stmts:
+            for n in ast.walk(st):
+                if isinstance(n, ast.JoinedStr) and n.values and isinstance(n.values[-1], ast.FormattedValue) and isinstance(n.values[-1].value, ast.Attribute) and n.values[-1].value.attr == "fence_marker" and isinstance(n.values[-1].value.value, ast.Name):
+                    zs.append(n.values[-1].value.value.id)
+        return zs
+
+    for fi in em.functions.values():
+        if "." in fi.qualname:
             continue
-        fi = em.func(fname)
-        if fname == "_literal_zone_field_lines":
-            sites.append((fname, fi.node.body, "lzv"))  # type: ignore[attr-defined]
-            continue
-        for n in walk_no_nested(fi.node):
-            if isinstance(n, ast.If) and "LiteralZoneValue" in _text(n.test):
-                sites.append((fname, n.body, "lzv"))
-    if len(sites) < 2:
-        raise AnalysisError(f"only {len(sites)} zone layout site(s) found in the emitter")
+        regions: list[list[ast.stmt]] = []
+        branch_nodes = [n for n in walk_no_nested(fi.node) if isinstance(n, ast.If) and "LiteralZoneValue" in _text(n.test)]
+        for bnode in branch_nodes:
+            regions.append(bnode.body)
+        # statements of the function outside those branches
+        inside = {id(x) for bnode in branch_nodes for st in bnode.body for x in ast.walk(st)}
+        rest = [st for st in fi.node.body if id(st) not in inside and not any(id(x) in inside for x in ast.walk(st))]  # type: ignore[attr-defined]
+        if rest:
+            regions.append(rest)
+        for reg in regions:
+            zs = fence_fstrings(reg)
+            if zs:
+                sites.append((fi.qualname, reg, zs[0]))
+    if len(sites) < 1:
+        raise AnalysisError("no zone layout site (a line built as `...{zone.fence_marker}`) found in the emitter")
     for fname, body, z in sites:
         f = _zone_layout(body, z)
         ok = bool(f["content_appended_raw"]) and bool(f["content_guard_is_nonempty_only"]) and bool(f["closing_fence"]) and not f["mentions_endswith"]
@@ -394,6 +451,19 @@ def check_layout_siblings(run: Run) -> None:
         if not ok:
             bad = [k for k, v in f.items() if (k != "mentions_endswith" and not v) or (k == "mentions_endswith" and v)]
             run.violation("R05.7", em, fname, f"zone layout in {fname}", f"{fname} lays out a literal zone differently from its siblings ({', '.join(bad)}): content must be appended unchanged as its own element exactly when non-empty, followed by the closing fence line - otherwise trailing blank lines of a zone are eaten or added on every pass")
+    run.extra["zone_layout_sites"] = [x[0] for x in sites]
+    # a zone that is a field value must not be rendered through emit_value's inline form (fence on the key line, end-of-content
+    # newline arithmetic): inside a branch that knows the value is a zone, emit_value is not called on it
+    for fi in em.functions.values():
+        for b in walk_no_nested(fi.node):
+            if not (isinstance(b, ast.If) and "LiteralZoneValue" in _text(b.test)):
+                continue
+            conj = b.test.values if isinstance(b.test, ast.BoolOp) and isinstance(b.test.op, ast.And) else [b.test]
+            zexprs = {_text(c.args[0]) for c in conj if isinstance(c, ast.Call) and _text(c.func) == "isinstance" and len(c.args) == 2 and _text(c.args[1]) == "LiteralZoneValue"}
+            for st in b.body:
+                for c in ast.walk(st):
+                    if isinstance(c, ast.Call) and _text(c.func) == "emit_value" and c.args and _text(c.args[0]) in zexprs and fi.qualname != "emit_value":
+                        run.violation("R05.7", em, fi.qualname, f"emit_value({_text(c.args[0])}) on a known zone", f"{fi.qualname} renders a value it knows to be a literal zone through emit_value, whose zone branch is the inline form (adds a newline only when the content does not already end with one): a zone whose content ends with blank lines loses one of them on every emission, unlike the sibling layouts")
 
 
 # ======================================================================================= R05.8
